@@ -144,13 +144,12 @@ func (a *BigInt) Frexp() (frac float64, exp int) {
 //
 // If it is outside the range of an Float it will return an error
 func (a *BigInt) Float() (Float, error) {
-	frac, exp := a.Frexp()
-	// FIXME this is a bit approximate but errs on the low side so
-	// we won't ever produce +Infs
-	if exp > float64MaxExponent-63 {
+	// big.Float holds the integer exactly, Float64 rounds it once (to nearest, ties to even)
+	f, _ := new(big.Float).SetInt((*big.Int)(a)).Float64()
+	if math.IsInf(f, 0) {
 		return 0, overflowErrorFloat
 	}
-	return Float(math.Ldexp(frac, exp)), nil
+	return Float(f), nil
 }
 
 func (a *BigInt) M__neg__() (Object, error) {
